@@ -579,6 +579,12 @@ func encodeSet(c *Ctx) map[*ssa.Function]bool {
 		}
 	}
 	if len(roots) == 0 {
+		// the callback may travel in a field of an options struct (store(ctx, &storeEnv{marshal: …}))
+		if cl, _ := flushMarshalClosure(c); cl != nil {
+			roots = append(roots, cl)
+		}
+	}
+	if len(roots) == 0 {
 		return nil
 	}
 	return c.Facts.Reach(roots...)
